@@ -1606,7 +1606,8 @@ fn pval_nest(v: &PVal) -> usize {
     match &v.kind {
         PKind::Scalar(_) => 0,
         PKind::Array(a) => 1 + a.iter().map(pval_nest).max().unwrap_or(0),
-        PKind::Inline(p) => 1 + p.iter().map(|(k, v)| k.len() + pval_nest(v)).max().unwrap_or(0),
+        // an inline table is one level; a dotted key inside it adds one table per extra segment
+        PKind::Inline(p) => 1 + p.iter().map(|(k, v)| k.len() - 1 + pval_nest(v)).max().unwrap_or(0),
     }
 }
 
